@@ -432,7 +432,32 @@ func (l *Lang) ReportPositions(shapes map[string]*Shape) *report.RuleResult {
 					res.Bad(k, l.Prog.Pos(ev.At), a.Prod.String(), "error position is not the Position of a token or node: "+e.Args[1].String())
 					continue
 				}
+				if _, baseNil := pp.Base.(Nil); baseNil {
+					res.Bad(k, l.Prog.Pos(ev.At), a.Prod.String(), "the error takes its position from a token or node that is nil on this path (a field the productions of the symbol never set): reading its Position panics instead of reporting")
+					continue
+				}
+				if isNil, known := p.St.KnownNil(pp.Base); known && isNil {
+					res.Bad(k, l.Prog.Pos(ev.At), a.Prod.String(), "the error takes its position from "+pp.Base.String()+", which is nil on this path: reading its Position panics instead of reporting")
+					continue
+				}
 				if pp.T == "token.Token" {
+					// the token itself must be there: a right-hand-side token is; a token kept in a field of what a
+					// right-hand-side symbol yields is there only if every production of that symbol sets the field
+					if fld, isField := pp.Base.(Part); isField {
+						if sy, ok := fld.Base.(Sym); ok && sy.I >= 1 && sy.I <= len(a.Prod.RHS) {
+							sh := shapes[a.Prod.RHS[sy.I-1]]
+							if sh == nil || !sh.Types[fld.T][fld.F] {
+								res.Bad(k, l.Prog.Pos(ev.At), a.Prod.String(), fmt.Sprintf("the error takes its position from the token $%d.(*%s).%s, which the productions of %s do not (all) set: the token is nil there and reading its Position panics instead of reporting", sy.I, fld.T, fld.F, a.Prod.RHS[sy.I-1]))
+								continue
+							}
+						}
+					}
+					if sy, ok := pp.Base.(Sym); ok && sy.I >= 1 && sy.I <= len(a.Prod.RHS) && l.tokenMayBeNil(a.Prod.RHS[sy.I-1]) {
+						if isNil, known := p.St.KnownNil(sy); !known || isNil {
+							res.Bad(k, l.Prog.Pos(ev.At), a.Prod.String(), fmt.Sprintf("the error takes its position from the optional token $%d (%s) without a nil test", sy.I, a.Prod.RHS[sy.I-1]))
+							continue
+						}
+					}
 					res.OK(k, l.Prog.Pos(ev.At), a.Prod.String(), "position of token "+pp.Base.String()+" (set by the scanner for every token)")
 					continue
 				}
@@ -1563,6 +1588,46 @@ func (l *Lang) FoldSpan() *report.RuleResult {
 			}
 			return true
 		})
+	}
+	return res
+}
+
+
+// ---- nil-deref ---------------------------------------------------------------------------------------------
+//
+// On some path of an action a field is read through a pointer that is nil on that path: a local pointer that
+// only one branch assigns (`var args *ArgumentList; if $2 != nil { args = … }; args.X`), or a token field that
+// no production of the symbol sets (`$4.(*ast.StmtClass).ExtendsTkn.Position`). The action panics there - on
+// valid input (`new class {}`) or instead of reporting an error. The abstract interpreter of the actions knows
+// which values are nil on a path (assignments of nil, declarations without a value, fields the productions of
+// a symbol never populate, branches that tested the value); every selector evaluated on such a value is an
+// obligation.
+func (l *Lang) NilDeref() *report.RuleResult {
+	res := report.NewResult("nil-deref")
+	g := l.L.G
+	for n := 1; n < len(l.Actions); n++ {
+		a := l.Actions[n]
+		if a == nil {
+			continue
+		}
+		res.Count("actions", 1)
+		seen := map[string]bool{}
+		for _, p := range a.Paths {
+			for _, ev := range p.St.Events {
+				if ev.Kind != "nilderef" {
+					continue
+				}
+				k := fmt.Sprintf("%s:%s/%s", l.L.Label, g.Key(a.Prod), ev.Args[0])
+				if seen[k] {
+					continue
+				}
+				seen[k] = true
+				res.Bad(k, l.Prog.Pos(ev.At), a.Prod.String(), fmt.Sprintf("%s is read through a pointer that is nil on the path [%s]: the action panics", ev.Args[0], pathLabel(p)))
+			}
+		}
+		if len(seen) == 0 {
+			res.OK(l.L.Label+":"+g.Key(a.Prod), l.actionPos(a), a.Prod.String(), "no field is read through a pointer that is nil on the path")
+		}
 	}
 	return res
 }
